@@ -160,6 +160,18 @@ def generate(rng, tier):
     def raw(n):
         return {"t": "Raw", "v": n}
 
+    # an instant close to 1 January of the CURRENT year: the year shown (and the choice of the year-less format) is the year
+    # in the zone of the date-time, not the year of the UTC instant
+    for y in (now_year, now_year + 1):
+        jan1 = 86400 * days_of(y, 1, 1)
+        for delta in (-1800, 1800, -5 * 3600 + 60, 3 * 3600 - 60):
+            for zn, zo in (("GMT+3", 180), ("EST", -300), ("GMT+14", 840), ("GMT-11", -660)):
+                add("%d to %s" % (jan1 + delta, zn), None, "year-boundary", [dt(jan1 + delta, zn, zo)])
+    # a clock time with its own zone after `at`: the time token holds the UTC instant of that wall time
+    for text, ts in (("12 january 2021 at 10:00 EST", 86400 * days_of(2021, 1, 12) + 15 * 3600),
+                     ("12 january 2021 at 23:30 CET", 86400 * days_of(2021, 1, 12) + 22 * 3600 + 1800),
+                     ("5 march 2020 at 8:15 GMT+5:30", 86400 * days_of(2020, 3, 5) + 2 * 3600 + 45 * 60)):
+        add("x = %s\nx as unix" % text, None, "at-zoned-time", [None, raw(ts)])
     while len(cases) < n_cases:
         r = rng.random()
         zone = None if rng.random() < 0.3 else rng.choice(DEFAULT_ZONES)
